@@ -1,9 +1,444 @@
 package main
 
-import "verif/vlib"
+// Monitor 2: linearizability of short concurrent histories, checked with porcupine against
+// the sequential reference models of harness/lmap (13 linked types) and harness/pmap (4 plain
+// types), plus a small deque model for list.LinkedList. Timestamps come from one atomic
+// logical clock (incremented before the call and after the return), so "A returned before
+// B was called" is exact and independent of the wall clock.
 
-// runLinearizability: monitor 2 (filled in once the shared models are available).
-func runLinearizability(c *vlib.Ctx) {}
+import (
+	"fmt"
+	"runtime"
+	"sort"
+	"strings"
+	"sync"
+	"sync/atomic"
+	"time"
 
-// quiescentInvariants runs the structural walkers of the shared model packages at quiescence.
+	"github.com/anishathalye/porcupine"
+	"github.com/whatap/golib/util/list"
+
+	"verif/lmap"
+	"verif/pmap"
+	"verif/vlib"
+)
+
+type hop struct {
+	client    int
+	in, out   interface{}
+	call, ret int64
+}
+
+// runConcurrent executes per-goroutine operation lists on a shared object and records the history.
+func runConcurrent(progs [][]interface{}, apply func(in interface{}) interface{}, gomax int) []hop {
+	old := runtime.GOMAXPROCS(gomax)
+	defer runtime.GOMAXPROCS(old)
+	var clk int64
+	var wg sync.WaitGroup
+	res := make([][]hop, len(progs))
+	var ready, start int32
+	for g := range progs {
+		wg.Add(1)
+		go func(g int) {
+			defer wg.Done()
+			// spin barrier: all goroutines leave together, on different Ps where possible
+			atomic.AddInt32(&ready, 1)
+			for atomic.LoadInt32(&start) == 0 {
+				if gomax == 1 {
+					runtime.Gosched()
+				}
+			}
+			for i, in := range progs[g] {
+				c := atomic.AddInt64(&clk, 1)
+				out := apply(in)
+				r := atomic.AddInt64(&clk, 1)
+				res[g] = append(res[g], hop{client: g, in: in, out: out, call: c, ret: r})
+				if (g+i)%3 == 0 {
+					runtime.Gosched()
+				}
+			}
+		}(g)
+	}
+	for atomic.LoadInt32(&ready) < int32(len(progs)) {
+		runtime.Gosched()
+	}
+	atomic.StoreInt32(&start, 1)
+	wg.Wait()
+	var all []hop
+	for _, r := range res {
+		all = append(all, r...)
+	}
+	sort.Slice(all, func(i, j int) bool { return all[i].call < all[j].call })
+	return all
+}
+
+func maxOverlap(h []hop) (int, int) {
+	type ev struct {
+		t int64
+		d int
+	}
+	var evs []ev
+	for _, o := range h {
+		evs = append(evs, ev{o.call, 1}, ev{o.ret, -1})
+	}
+	sort.Slice(evs, func(i, j int) bool { return evs[i].t < evs[j].t })
+	cur, mx, pairs := 0, 0, 0
+	for _, e := range evs {
+		if e.d == 1 {
+			pairs += cur
+		}
+		cur += e.d
+		if cur > mx {
+			mx = cur
+		}
+	}
+	return mx, pairs
+}
+
+func toPorc(h []hop) []porcupine.Operation {
+	ops := make([]porcupine.Operation, len(h))
+	for i, o := range h {
+		ops[i] = porcupine.Operation{ClientId: o.client, Input: o.in, Output: o.out, Call: o.call, Return: o.ret}
+	}
+	return ops
+}
+
+func renderHist(h []hop) []string {
+	var out []string
+	for _, o := range h {
+		out = append(out, fmt.Sprintf("g%d [%d,%d] %v -> %v", o.client, o.call, o.ret, o.in, o.out))
+	}
+	return out
+}
+
+func judge(c *vlib.Ctx, typeName string, model porcupine.Model, h []hop, label string, extra map[string]interface{}) {
+	res, _ := porcupine.CheckOperationsVerbose(model, toPorc(h), 20*time.Second)
+	mo, pairs := maxOverlap(h)
+	c.Count("lin_histories", 1)
+	c.Count("lin_ops", int64(len(h)))
+	c.Max("max_overlap", int64(mo))
+	if pairs > 0 {
+		c.Count("lin_histories_with_overlap", 1)
+	}
+	c.Count("lin_overlapping_pairs", int64(pairs))
+	c.SetAdd("types_linearizability", typeName)
+	rh := renderHist(h)
+	c.DistinctStr(typeName + "|" + strings.Join(rh, ";"))
+	switch res {
+	case porcupine.Ok:
+		c.Count("lin_ok", 1)
+	case porcupine.Unknown:
+		c.Inconclusive(label, "porcupine timed out (20 s)")
+	case porcupine.Illegal:
+		d := map[string]interface{}{"type": typeName, "history": rh}
+		for k, v := range extra {
+			d[k] = v
+		}
+		c.Fail(typeName+":not-linearizable", "a recorded concurrent history of point operations has no linearization against the sequential model", d)
+	}
+	if c.WantSample() && pairs > 0 {
+		c.Sample(map[string]interface{}{"monitor": "linearizability", "type": typeName, "history": rh, "verdict": fmt.Sprint(res), "max_overlap": mo})
+	}
+}
+
+// ---- linked types (lmap) ------------------------------------------------------------------
+
+var lmapPoint = []string{"Put", "PutFirst", "PutLast", "Add", "AddFirst", "AddLast", "Get", "GetLRU", "ContainsKey",
+	"Remove", "RemoveFirst", "RemoveLast", "Clear", "Size", "IsEmpty", "IsFull"}
+
+func lmapKey(t *lmap.TypeDesc, i int) interface{} {
+	ints := []int64{1, 2, 102, 203, -1} // 1, 102, 203 share buckets in the default tables
+	strs := []string{"a", "b", "k1", "k2", "zz"}
+	switch t.Key {
+	case lmap.KString:
+		return strs[i%len(strs)]
+	}
+	return ints[i%len(ints)]
+}
+
+func lmapVal(t *lmap.TypeDesc, id int64) interface{} {
+	switch t.Val {
+	case lmap.VFloat32:
+		return float32(id)
+	case lmap.VSet:
+		return nil
+	}
+	return id
+}
+
+func linLmap(c *vlib.Ctx, t *lmap.TypeDesc, r *vlib.Rand, label string, gomax int) {
+	cfg := lmap.Config{Default: true, Max: []int{0, 0, 2, 3}[r.Intn(4)]}
+	inst := t.New(cfg)
+	if inst.Obj == nil {
+		return
+	}
+	model := lmap.NewModel(t, cfg)
+	var ops []string
+	for _, o := range lmapPoint {
+		if t.Supports(o) {
+			ops = append(ops, o)
+		}
+	}
+	nkeys := r.Range(1, 4)
+	var vid int64 = 1000
+	mk := func(rr *vlib.Rand) lmap.Op {
+		name := ops[rr.Intn(len(ops))]
+		if name == "Clear" && rr.Intn(3) != 0 {
+			name = "Put"
+		}
+		op := lmap.Op{Name: name}
+		switch name {
+		case "Put", "PutFirst", "PutLast", "Add", "AddFirst", "AddLast":
+			op.K = lmapKey(t, rr.Intn(nkeys))
+			op.V = lmapVal(t, atomic.AddInt64(&vid, 1))
+			if strings.HasPrefix(name, "Add") {
+				op.V = lmapVal(t, int64(rr.Range(1, 9)))
+			}
+		case "Get", "GetLRU", "ContainsKey", "Remove":
+			op.K = lmapKey(t, rr.Intn(nkeys))
+		}
+		return op
+	}
+	// sequential prefix applied to both the instance and the model
+	for i := r.Intn(4); i > 0; i-- {
+		op := mk(r)
+		if op.Name == "Clear" {
+			continue
+		}
+		got := lmap.Apply(inst, op)
+		want := model.Step(op)
+		if !want.Equal(got) {
+			return // a sequential disagreement is C09's finding, not a concurrency one
+		}
+	}
+	G := r.Range(3, 5)
+	progs := make([][]interface{}, G)
+	for g := range progs {
+		gr := r.Fork(fmt.Sprint("g", g))
+		for i := r.Range(4, 9); i > 0; i-- {
+			progs[g] = append(progs[g], mk(gr))
+		}
+	}
+	h := runConcurrent(progs, func(in interface{}) interface{} { return lmap.Apply(inst, in.(lmap.Op)) }, gomax)
+	init := model.Clone()
+	pm := porcupine.Model{
+		Init: func() interface{} { return init.Clone() },
+		Step: func(st, in, out interface{}) (bool, interface{}) {
+			m := st.(*lmap.Model).Clone()
+			want := m.Step(in.(lmap.Op))
+			return want.Equal(out.(lmap.Result)), m
+		},
+		Equal: func(a, b interface{}) bool { return a.(*lmap.Model).Equal(b.(*lmap.Model)) },
+	}
+	judge(c, t.Name, pm, h, label, map[string]interface{}{"max": cfg.Max, "initial_keys": fmt.Sprint(init.Keys())})
+	// quiescent structural invariant
+	if snap := lmap.Walk(inst); snap != nil && len(snap.Problems) > 0 {
+		c.Fail(t.Name+":structure-corrupt-after-concurrency", "the structural walker found a broken invariant at quiescence after a concurrent history: "+snap.Problems[0],
+			map[string]interface{}{"type": t.Name, "problems": snap.Problems, "history": renderHist(h)})
+	}
+	c.Count("walker_runs", 1)
+}
+
+// ---- plain types (pmap) -------------------------------------------------------------------
+
+func linPmap(c *vlib.Ctx, d *pmap.Descriptor, r *vlib.Rand, label string, gomax int) {
+	inst := d.New(0, 0)
+	model := pmap.NewModel(d.Name, inst.None)
+	nkeys := r.Range(1, 4)
+	ikeys := []int32{1, 2, 102, -7}
+	skeys := []string{"a", "b", "k1", "zz"}
+	var vid int32 = 10
+	mk := func(rr *vlib.Rand) pmap.Op {
+		name := d.PointOps[rr.Intn(len(d.PointOps))]
+		if name == "Clear" && rr.Intn(3) != 0 {
+			name = "Put"
+		}
+		if d.StringKey {
+			return pmap.StrOp(name, skeys[rr.Intn(nkeys)])
+		}
+		op := pmap.Op{Name: name, K: ikeys[rr.Intn(nkeys)]}
+		switch name {
+		case "Put":
+			op.V = atomic.AddInt32(&vid, 1)
+		case "Add", "AddIfExist":
+			op.V = int32(rr.Range(1, 9))
+		}
+		return op
+	}
+	for i := r.Intn(4); i > 0; i-- {
+		op := mk(r)
+		if op.Name == "Clear" {
+			continue
+		}
+		got := pmap.Apply(inst, op)
+		want := model.Step(op)
+		if !pmap.Match(want, got, model.None) {
+			return
+		}
+	}
+	G := r.Range(3, 5)
+	progs := make([][]interface{}, G)
+	for g := range progs {
+		gr := r.Fork(fmt.Sprint("g", g))
+		for i := r.Range(4, 9); i > 0; i-- {
+			progs[g] = append(progs[g], mk(gr))
+		}
+	}
+	h := runConcurrent(progs, func(in interface{}) interface{} { return pmap.Apply(inst, in.(pmap.Op)) }, gomax)
+	init := model.Clone()
+	pm := porcupine.Model{
+		Init: func() interface{} { return init.Clone() },
+		Step: func(st, in, out interface{}) (bool, interface{}) {
+			m := st.(*pmap.Model).Clone()
+			want := m.Step(in.(pmap.Op))
+			return pmap.Match(want, out.(pmap.Result), m.None), m
+		},
+		Equal: func(a, b interface{}) bool { return a.(*pmap.Model).StateKey() == b.(*pmap.Model).StateKey() },
+	}
+	judge(c, d.Name, pm, h, label, nil)
+	if rep := pmap.Walk(inst); rep != nil && len(rep.Problems) > 0 {
+		hard := 0
+		for _, p := range rep.Problems {
+			if p.Kind != "misplaced" {
+				hard++
+			}
+		}
+		if hard > 0 {
+			c.Fail(d.Name+":structure-corrupt-after-concurrency", fmt.Sprintf("the structural walker found a broken invariant at quiescence after a concurrent history: %+v", rep.Problems[0]),
+				map[string]interface{}{"type": d.Name, "history": renderHist(h)})
+		}
+	}
+	c.Count("walker_runs", 1)
+}
+
+// ---- list.LinkedList ---------------------------------------------------------------------
+
+type llOp struct {
+	Name string
+	V    int64
+}
+
+func (o llOp) String() string {
+	if strings.HasPrefix(o.Name, "Add") {
+		return fmt.Sprintf("%s(%d)", o.Name, o.V)
+	}
+	return o.Name + "()"
+}
+
+type llRes struct {
+	Has bool
+	V   int64
+}
+
+func llStep(st []int64, op llOp) ([]int64, llRes) {
+	switch op.Name {
+	case "AddFirst":
+		return append([]int64{op.V}, st...), llRes{}
+	case "AddLast", "Add":
+		return append(append([]int64{}, st...), op.V), llRes{}
+	case "RemoveFirst":
+		if len(st) == 0 {
+			return st, llRes{}
+		}
+		return append([]int64{}, st[1:]...), llRes{true, st[0]}
+	case "RemoveLast":
+		if len(st) == 0 {
+			return st, llRes{}
+		}
+		return append([]int64{}, st[:len(st)-1]...), llRes{true, st[len(st)-1]}
+	case "Size":
+		return st, llRes{true, int64(len(st))}
+	case "Clear":
+		return nil, llRes{}
+	}
+	return st, llRes{}
+}
+
+func linLinkedList(c *vlib.Ctx, r *vlib.Rand, label string, gomax int) {
+	l := list.NewLinkedList()
+	names := []string{"AddFirst", "AddLast", "Add", "RemoveFirst", "RemoveLast", "Size", "Clear"}
+	var vid int64 = 100
+	mk := func(rr *vlib.Rand) llOp {
+		n := names[rr.Intn(len(names))]
+		if n == "Clear" && rr.Intn(3) != 0 {
+			n = "AddLast"
+		}
+		return llOp{Name: n, V: atomic.AddInt64(&vid, 1)}
+	}
+	apply := func(in interface{}) interface{} {
+		op := in.(llOp)
+		switch op.Name {
+		case "AddFirst":
+			l.AddFirst(op.V)
+		case "AddLast":
+			l.AddLast(op.V)
+		case "Add":
+			l.Add(op.V)
+		case "RemoveFirst":
+			if v := l.RemoveFirst(); v != nil {
+				return llRes{true, v.(int64)}
+			}
+		case "RemoveLast":
+			if v := l.RemoveLast(); v != nil {
+				return llRes{true, v.(int64)}
+			}
+		case "Size":
+			return llRes{true, int64(l.Size())}
+		case "Clear":
+			l.Clear()
+		}
+		return llRes{}
+	}
+	G := r.Range(3, 5)
+	progs := make([][]interface{}, G)
+	for g := range progs {
+		gr := r.Fork(fmt.Sprint("g", g))
+		for i := r.Range(4, 9); i > 0; i-- {
+			progs[g] = append(progs[g], mk(gr))
+		}
+	}
+	h := runConcurrent(progs, apply, gomax)
+	pm := porcupine.Model{
+		Init: func() interface{} { return []int64(nil) },
+		Step: func(st, in, out interface{}) (bool, interface{}) {
+			ns, want := llStep(st.([]int64), in.(llOp))
+			return want == out.(llRes), ns
+		},
+		Equal: func(a, b interface{}) bool { return fmt.Sprint(a) == fmt.Sprint(b) },
+	}
+	judge(c, "LinkedList", pm, h, label, nil)
+	// quiescence: ToArray agrees with Size and the chain is consistent
+	arr := l.ToArray()
+	if len(arr) != l.Size() {
+		c.Fail("LinkedList:structure-corrupt-after-concurrency", fmt.Sprintf("Size()=%d but ToArray() has %d elements at quiescence", l.Size(), len(arr)), map[string]interface{}{"history": renderHist(h)})
+	}
+}
+
+func runLinearizability(c *vlib.Ctx) {
+	gomaxes := []int{4, 8, 16, 2}
+	n := c.N(4000, 200000)
+	if c.Flavour == "race" {
+		n = c.N(1500, 50000)
+	}
+	ntypes := len(lmap.Types) + len(pmap.Types) + 1
+	c.Cases("linearizability", n, func(i int, r *vlib.Rand) {
+		k := i % ntypes
+		label := fmt.Sprint("linearizability#", i)
+		gm := gomaxes[(i/ntypes)%4]
+		switch {
+		case k < len(lmap.Types):
+			linLmap(c, lmap.Types[k], r, label, gm)
+		case k < len(lmap.Types)+len(pmap.Types):
+			linPmap(c, pmap.Types[k-len(lmap.Types)], r, label, gm)
+		default:
+			linLinkedList(c, r, label, gm)
+		}
+	})
+	c.Floor("lin_histories", int64(n/c.NShards/4), c.Counter("lin_histories"))
+	c.Floor("lin_histories_with_overlap", int64(n/c.NShards/40), c.Counter("lin_histories_with_overlap"))
+}
+
+// quiescentInvariants: the stress instances are created by reflection; their generic quiescent
+// check (Size() versus the whole-structure views) is in stressOne. The private-structure
+// walkers run after every linearizability history (linLmap / linPmap).
 func quiescentInvariants(c *vlib.Ctx, ct ctype, inst interface{}, tname string) {}
